@@ -816,6 +816,43 @@ theorem cutWrite_spec (S : Bytes) (uw : Option Nat) (s d : Dec) (hd : DecInv S d
       exact List.IsPrefix.trans (List.take_prefix _ _) (decInv_out_prefix S d hd)
     · exact ⟨hd, Nat.le_refl _, Or.inl rfl⟩
 
+/-- Splitting a pass's datagrams into `batchSize` batches loses, duplicates and reorders nothing, and no batch
+exceeds the writer's capacity. -/
+theorem flushBatches_spec (n : Nat) (hn : 0 < n) : ∀ (k : Nat) (pk : List Bytes), pk.length ≤ k →
+    (flushBatches n pk).flatten = pk ∧ ∀ b ∈ flushBatches n pk, b.length ≤ n ∧ b ≠ [] := by
+  obtain ⟨m, rfl⟩ : ∃ m, n = m + 1 := ⟨n - 1, by omega⟩
+  intro k
+  induction k with
+  | zero =>
+    intro pk hk
+    have : pk = [] := List.eq_nil_of_length_eq_zero (by omega)
+    subst this
+    rw [flushBatches]
+    simp
+  | succ k ih =>
+    intro pk hk
+    rw [flushBatches]
+    by_cases hle : pk.length ≤ m + 1
+    · rw [if_pos hle]
+      by_cases he : pk.isEmpty = true
+      · rw [if_pos he]; simp [List.isEmpty_iff.mp he]
+      · rw [if_neg he]
+        have hne : pk ≠ [] := fun h => he (by simp [h])
+        simp [hle, hne]
+    · rw [if_neg hle]
+      have hlt : m + 1 < pk.length := Nat.lt_of_not_le hle
+      have := ih (pk.drop (m + 1)) (by simp; omega)
+      refine ⟨by simp [this.1], fun b hb => ?_⟩
+      simp only [List.mem_cons] at hb
+      cases hb with
+      | inl h =>
+        subst h
+        refine ⟨by rw [List.length_take]; omega, fun h0 => ?_⟩
+        have : (pk.take (m + 1)).length = 0 := by rw [h0]; rfl
+        rw [List.length_take] at this
+        omega
+      | inr h => exact this.2 b h
+
 /-! ### UDP → tunnel goroutine -/
 
 /-- What the read buffer and the `n == 0` test make of the datagrams taken from the socket. -/
